@@ -173,6 +173,12 @@ func compareInt(a, b int) int {
 
 // parseNum returns the integer value and true if s is a valid number, otherwise 0 and false
 func parseNum(s string) (int, bool) {
+	// Only digits make a numeric identifier: "-5" is alphanumeric
+	for _, r := range s {
+		if r < '0' || r > '9' {
+			return 0, false
+		}
+	}
 	if num, err := strconv.Atoi(s); err == nil {
 		return num, true
 	}
